@@ -1841,10 +1841,72 @@ theorem word_handlers_nonstave_src (cfg : CheckCfg) (v : SrcLink.CdpRunningValid
    fun s' ms hok => SrcTie.preprocess_data_word_eq cfg v s c w h hst s' ms hok,
    fun hc => SrcTie.check_tdh_trigger_interval_eq cfg v s c w h hc⟩
 
+/-- **the per-word validator of the source is the model's `checkWord`** (every configuration without the readout-frame validator:
+    `check sanity`, `check all`, `check all its`): for every word and every pair of related states (`SrcTie.AbsW`: configuration,
+    state machine, tracker fields, header, stored status words) in which the model does not stop at a panic site, the source's
+    `CdpRunningValidator::check` — counting the word, `ItsPayloadFsmContinuous::advance` as translated for C09, the dispatch on its
+    answer, the handlers and state-dependent checks — leaves states related again and has sent exactly the model's messages
+    (code, offset, quoted word). Bounds: fewer than 65535 words counted (`u16`), addresses below 2^64. -/
+theorem check_word_src (cfg : CheckCfg) (v : SrcLink.CdpRunningValidator) (s : CdpSt) (c : SrcRdh.RdhCru) (w : Bytes)
+    (h : SrcTie.AbsW cfg v s c) (hst : cfg.stave = false) (h2 : s.wordCount + 1 < 65536) (hb : s.payloadPos + 65536 * 16 < 2^64)
+    (s' : CdpSt) (ms : List Msg) (hok : checkWord cfg s w = .ok (s', ms)) :
+    SrcTie.AbsW cfg (v.check w).2 s' c ∧ SrcTie.outMsgs (v.check w).2.f_out = SrcTie.outMsgs v.f_out ++ ms :=
+  SrcTie.check_eq cfg v s c w h hst h2 hb s' ms hok
+
+/-- ... and so for every list of words (the loop of `do_payload_checks` over the 10-byte words cut by `preprocess_payload`, C12) -/
+theorem check_words_src (cfg : CheckCfg) (c : SrcRdh.RdhCru) (hst : cfg.stave = false) (ws : List Bytes) :
+    ∀ (v : SrcLink.CdpRunningValidator) (s s' : CdpSt) (ms : List Msg), SrcTie.AbsW cfg v s c →
+    s.wordCount + ws.length < 65536 → s.payloadPos + 65536 * 16 < 2^64 → checkWords cfg s ws = .ok (s', ms) →
+    SrcTie.AbsW cfg (ws.foldl (fun v w => (v.check w).2) v) s' c ∧
+    SrcTie.outMsgs (ws.foldl (fun v w => (v.check w).2) v).f_out = SrcTie.outMsgs v.f_out ++ ms := by
+  induction ws with
+  | nil =>
+    intro v s s' ms h _ _ hok
+    simp only [checkWords, Except.ok.injEq, Prod.mk.injEq] at hok
+    obtain ⟨rfl, rfl⟩ := hok
+    exact ⟨h, by simp⟩
+  | cons w ws ih =>
+    intro v s s' ms h hl hb hok
+    simp only [List.length_cons] at hl
+    simp only [checkWords] at hok
+    cases h1 : checkWord cfg s w with
+    | error p => rw [h1] at hok; cases hok
+    | ok r1 =>
+      obtain ⟨s1, m1⟩ := r1
+      rw [h1] at hok
+      simp only at hok
+      cases h2 : checkWords cfg s1 ws with
+      | error p => rw [h2] at hok; cases hok
+      | ok r2 =>
+        obtain ⟨s2, m2⟩ := r2
+        rw [h2] at hok
+        simp only [Except.ok.injEq, Prod.mk.injEq] at hok
+        obtain ⟨rfl, rfl⟩ := hok
+        obtain ⟨a1, o1⟩ := SrcTie.check_eq cfg v s c w h hst (by omega) hb s1 m1 h1
+        obtain ⟨tp, _, tc⟩ := checkWords_tracker cfg [w] s s1 (m1 ++ []) (by simp [checkWords, h1])
+        obtain ⟨a2, o2⟩ := ih (v.check w).2 s1 s2 m2 a1 (by simp at tc; omega) (by rw [tp]; exact hb) h2
+        exact ⟨a2, by rw [List.foldl_cons, o2, o1, List.append_assoc]⟩
+
+/-- **a whole payload**: from any related packet-independent state (`SrcTie.AbsR`: a fresh validator, or the state the previous packet of
+    the link left), `set_current_rdh(rdh, offset)` followed by `check` on every word of the cut payload is the model's
+    `payloadChecks` — same final state, same messages. (The padding-error branch of `do_payload_checks` sends on the channel directly
+    and resets the state machine; it is not translated.) -/
+theorem payload_src (cfg : CheckCfg) (v : SrcLink.CdpRunningValidator) (s : CdpSt) (c : SrcRdh.RdhCru) (off : Nat) (payload : Bytes)
+    (ws : List Bytes) (h : SrcTie.AbsR cfg v s) (hst : cfg.stave = false) (hcut : cutPayload payload = some ws)
+    (hlen : ws.length < 65536) (hoff : off + 64 + 65536 * 16 < 2^64)
+    (s' : CdpSt) (ms : List Msg) (hok : payloadChecks cfg s off (SrcTie.toModel c) payload = .ok (s', ms)) :
+    SrcTie.AbsW cfg (ws.foldl (fun v w => (v.check w).2) (v.set_current_rdh c off).2) s' c ∧
+    SrcTie.outMsgs (ws.foldl (fun v w => (v.check w).2) (v.set_current_rdh c off).2).f_out = SrcTie.outMsgs v.f_out ++ ms := by
+  obtain ⟨hset, hW⟩ := SrcTie.set_current_rdh_eq cfg v s c off h hst (by omega)
+  simp only [payloadChecks, hset, hcut] at hok
+  have hout : (v.set_current_rdh c off).2.f_out = v.f_out := rfl
+  rw [← hout]
+  exact check_words_src cfg c hst ws _ _ s' ms hW (by simp [SrcTie.startPkt]; omega) (by simp [SrcTie.startPkt]; omega) hok
+
 /-- non-vacuity: a freshly built source validator stands for the model's state at the first word of a packet -/
 example : SrcTie.Abs { running := true }
     { f_running_checks_enabled := true, f_tracker := { f_payload_mem_pos := 64, f_gbt_word_counter := 1, f_gbt_word_padding_size_bytes := 0, f_is_start_of_data := true },
-      f_rdh_validator := SrcState.ItsRdhValidator.new default, f_status_words := SrcState.StatusWordContainer.new_const, f_out := [], f_trigger_period := none }
+      f_rdh_validator := SrcState.ItsRdhValidator.new default, f_status_words := SrcState.StatusWordContainer.new_const, f_out := [], f_trigger_period := none, f_its_state_machine := .initialIhw }
     { payloadPos := 64, wordCount := 1, slot := 10, rdh := SrcTie.toModel default } default :=
   ⟨rfl, rfl, rfl, by decide, rfl, rfl, rfl, rfl, rfl, rfl, rfl⟩
 
